@@ -122,3 +122,13 @@ CHECKS['C04'] = dict(
          'is exhaustive; chord export covers all notes and forwards the options; non-note export is verbatim.',
     note='Not decided: cells whose own text contains the separator characters. Trusted: Python str.replace/split/join semantics.',
 )
+
+CHECKS['C20'] = dict(
+    category='other',
+    technique='writer/reader agreement checks (csv dialect, record splitting, text encoding at every open site); sibling comparison on extracted facts (dump/dumps option maps, read/create, the two CLI handlers through a correspondence table); origin checks of store/_write/converters',
+    text='Decides the plumbing clauses for every text and option set: both readers split records and cells identically, every open() names the '
+         'reader\'s encoding, dump and dumps build the same options and store writes exactly the export once after creating directories, '
+         'load/loads are sibling functions, the two CLI handlers are mirror images that call the API converters once per input, the converter '
+         'exports with a closed category set in the extended encoding, get_kern_from_ekern undoes exactly the header prefix and the separators.',
+    note='Not decided: byte equality on all texts; the ekern -> kern -> ekern round trip (C01). Trusted: csv/io/open semantics, pathlib glob/rglob.',
+)
